@@ -135,6 +135,29 @@ pub fn run(args: &Args, rep: &mut Report) {
             }
         }
     }
+    for (i, text) in corpus().iter().enumerate() {
+        if (i as u64) % args.of.max(1) != args.worker {
+            continue;
+        }
+        let Ok(ast) = lib_parse(text) else { continue };
+        let hol = if has_holiday_selector(&ast) { HolSpec::Country("FR".into()) } else { HolSpec::None };
+        let Some(oh) = build(text, &hol) else { continue };
+        let mut r = Rng::new(args.seed, 0xc0c0, i as u64);
+        for _ in 0..4 {
+            let (from, mut to, class) = gen_window(&mut r, &ast, false);
+            if class == "open_ended" {
+                to = from + Duration::days(2000);
+            }
+            rep.evaluations += 1;
+            match check_window(&oh, Some(&ast), from, to, &mut r, cap, &mut st) {
+                Ok(_) => rep.count("corpus_windows_checked"),
+                Err(msg) => {
+                    rep.violation("interval_stream", format!("{text:?} [{}] (from the repository's sample/test sources) iter_range({from}, {to}): {msg}", hol.to_string()), json!({"expr": text, "holidays": hol.to_string(), "from": from.to_string(), "to": to.to_string()}), known::explained_by(&args.known, &ast));
+                    break;
+                }
+            }
+        }
+    }
     rep.add("days_point_checked", st.days_checked);
     rep.add("days_unchecked_inside_long_intervals", st.days_unchecked);
     rep.add("skipped_days_point_checked", st.skipped_days_checked);
